@@ -26,6 +26,15 @@ CLAIMED = {
               "reference function written from the statement. The space is finite and is enumerated, not sampled."),
         note="Non-sanitized -O2 build of the same sources; X- mechanisms without credentials only; SHA-512 vs SHA3-512 order is a don't-care.",
         design_ref="§3 C05"),
+    "C07": dict(
+        category="model_checking", engine="bfs",
+        technique="explicit-state BFS over request/reply/disconnect histories of the real client (loopback TCP) against a completion reference table",
+        text=("Breadth-first search over histories of send / reply(kind, sender class) / drop / reconnect(resumed|new) / disconnect / destroy "
+              "events for three outstanding requests with different addressee kinds, in a resumable-SM and a no-SM configuration (depth 5/4 "
+              "quick, 7 thorough); after each step every task's completion count and value are compared with the reference table of "
+              "must / must-not / don't-care sender classes."),
+        note="Generic IQ requests only (manager request APIs are not swept here); deterministic replay re-checked every 97th execution.",
+        design_ref="§3 C07(a)"),
     "C09": dict(
         category="model_checking", engine="bfs",
         technique="explicit-state BFS over event histories of the real client (loopback TCP, scripted XEP-0198 server) with a reference model compared after every step",
